@@ -2,14 +2,17 @@ import BigDec.Model.Exp
 import BigDec.Proofs.ExpEnclosure
 import BigDec.Proofs.EstCode
 import BigDec.Proofs.ExpPos
+import BigDec.Proofs.ExpAccuracy
 /-! # C13 — exp(x) is positive and accurate to its last digit for every argument
 
-PARTIAL BY NATURE: the accuracy bound (one unit in the 100th digit of the real `e^x`) is a
-statement about a transcendental function; it is judged per generated argument by an interval
-enclosure of `e^x` computed with exact rational arithmetic (`Spec.expEnclosure`).  What is proved
-for ALL arguments about the model of the repaired routine (series for `|x|`, `e^-x = 1/e^x`):
-the result is strictly positive - the clause the original code violated for large negative
-arguments (exp(-1000) was negative) - and `exp(0)` is exactly 1.  `est` is the f64 digit estimate;
+What is proved for ALL arguments about the model of the repaired routine (series for `|x|`,
+`e^-x = 1/e^x`): the result is strictly positive - the clause the original code violated for large
+negative arguments (exp(-1000) was negative) - and `exp(0)` is exactly 1.  For every non-zero
+`|x| ≤ 1000` and every precision: the result is strictly less than one unit of its last digit away
+from Mathlib's `Real.exp` (`C13_accuracy_to_1000_code`), has exactly `P` digits (`C13_digit_count`)
+and the order clause holds (`C13_order_two_ulp`).  Independently each generated argument is judged
+by an interval enclosure of `e^x` computed with exact rational arithmetic (`Spec.expEnclosure`,
+proved sound below).  `est` is the f64 digit estimate;
 `EstOK est` is the scalar condition proved for the code's own f64 quotient up to 2^40 bits
 (`C18_est_code`); `estGuard` is that quotient up to 2^40 bits and the exact floor above. -/
 namespace BigDec
@@ -76,5 +79,376 @@ theorem C13_negative_is_reciprocal (cfg : Config) (est : Nat → Nat) (x : Dec) 
   unfold Dec.exp
   have hz : x.isZero = false := by simp [Dec.isZero]; omega
   simp [hz, hneg]
+
+
+/-! ## Accuracy from the stopping rule
+
+`Dec.expStopIndex` is the number `N` of the last Taylor term the loop added before two successive
+`P+5`-digit roundings agreed.  The theorems below hold for EVERY argument, precision and fuel; their
+one premise, `101·|x| ≤ 100·(N+1)` (the stop came after the terms had started to shrink
+geometrically, so that the unsummed tail is at most 100 last terms), is a decidable fact about the
+run, which the driver evaluates on every input (`+stop-premise-fails` is printed where it does not
+hold - then the per-input enclosure alone decides).  Proof: loop invariant (`expLoop_exit`: every
+term division has relative error `½·10^(1-T)`, `T = P+17+digits(x)`, the running sum inherits it),
+the stopping rule bounds the last term by `2ρ'·S` (`ρ' = ½·10^(1-(P+5))`), the tail of the real series
+is bounded geometrically (`exp_tail_geom`, from Mathlib's `HasSum` of the exponential series), and
+the final `with_prec(P)` adds half a unit. -/
+
+theorem abs_of_pos_int (x : Dec) (hx : 0 < x.int) : x.abs = x := by
+  cases x with
+  | mk i s =>
+    simp only [Dec.abs] at hx ⊢
+    congr 1
+    omega
+
+/-- **positive arguments: within 0.52 units of the last digit of the real `e^x`**, whenever the
+    stop index satisfies `101·x ≤ 100·(N+1)` -/
+theorem C13_accuracy_positive (cfg : Config) {est : Nat → Nat} (hest : EstOK est) (hp : 1 ≤ cfg.precision)
+    (x : Dec) (hx : 0 < x.int) (fuel : Nat) (out : Dec) (h : x.exp cfg est fuel = some out) :
+    ∃ N : Nat, x.expStopIndex cfg est fuel = some N ∧ 2 ≤ N ∧
+      (101 * x.value ≤ 100 * ((N : ℚ) + 1) →
+        |(out.value : ℝ) - Real.exp (x.value : ℝ)| ≤ (1 / 2 + 1 / 50) * (10 : ℝ) ^ (-out.scale)) := by
+  unfold Dec.exp at h
+  have hz : x.isZero = false := by simp [Dec.isZero]; omega
+  rw [hz] at h
+  simp only [Bool.false_eq_true, if_false] at h
+  rw [if_neg (by omega)] at h
+  unfold expUntrimmed at h
+  rw [expLoop_eq_expLoopN] at h
+  unfold Dec.expStopIndex
+  simp only
+  rw [abs_of_pos_int x hx]
+  cases hl : expLoopN cfg est x x.digits fuel 2 x 1 (addBigdecimals x Dec.one) (addBigdecimals x Dec.one) with
+  | none => rw [hl] at h; simp at h
+  | some pr =>
+    obtain ⟨N, r⟩ := pr
+    rw [hl] at h
+    simp only [Option.map_some, Option.some.injEq] at h
+    refine ⟨N, rfl, ?_, ?_⟩
+    · -- 2 ≤ N holds without the premise: the loop starts at n = 2
+      obtain ⟨S, q, hN1, _⟩ := expLoop_exit cfg hest hp x hx x.digits fuel 2 x 1 _ _ r N (le_refl _) (by simp) (by simp)
+        (by rw [value_addBigdecimals]
+            have : Dec.one.value = 1 := by unfold Dec.value Dec.one; norm_num
+            rw [this]; have := (value_pos_iff x).mpr hx; linarith)
+        (by
+          have h1v : Dec.one.value = 1 := by unfold Dec.value Dec.one; norm_num
+          have hE1 : Eq' x.value (2 - 1) = x.value + 1 := by
+            unfold Eq' tq; simp [Finset.sum_range_succ]; ring
+          rw [value_addBigdecimals, h1v, hE1, sub_self, abs_zero]
+          have := (expEta_le cfg x.digits).1
+          have := (value_pos_iff x).mpr hx
+          positivity)
+        (by
+          rw [sub_self, abs_zero]
+          have h1v : Dec.one.value = 1 := by unfold Dec.value Dec.one; norm_num
+          rw [value_addBigdecimals, h1v]
+          have := expRho_pos cfg
+          have := (value_pos_iff x).mpr hx
+          positivity) hl
+      exact hN1
+    · intro hprem
+      obtain ⟨_, hrpos, hacc⟩ := expSeries_accuracy cfg hest hp x hx fuel N r hl 100 (by norm_num) (by norm_num)
+        (by linarith)
+      rw [← h]
+      have hU : (0 : ℝ) < (10 : ℝ) ^ (-(r.withPrec est cfg.precision).scale) := zpow_pos (by norm_num) _
+      have := final_trim_accuracy cfg hest hp r hrpos _ 203 (by norm_num) (by push_cast at hacc ⊢; norm_num at hacc ⊢; exact hacc)
+      refine le_trans this ?_
+      push_cast
+      nlinarith
+
+/-- **negative arguments: within 0.57 units of the last digit of the real `e^x`**, whenever the
+    stop index of the series for `|x|` satisfies `101·|x| ≤ 100·(N+1)` -/
+theorem C13_accuracy_negative (cfg : Config) {est : Nat → Nat} (hest : EstOK est) (hp : 1 ≤ cfg.precision)
+    (x : Dec) (hx : x.int < 0) (fuel : Nat) (out : Dec) (h : x.exp cfg est fuel = some out) :
+    ∃ N : Nat, x.expStopIndex cfg est fuel = some N ∧ 2 ≤ N ∧
+      (101 * (-x.value) ≤ 100 * ((N : ℚ) + 1) →
+        |(out.value : ℝ) - Real.exp (x.value : ℝ)| ≤ 57 / 100 * (10 : ℝ) ^ (-out.scale)) := by
+  rw [C13_negative_is_reciprocal cfg est x fuel hx] at h
+  unfold expUntrimmed at h
+  rw [expLoop_eq_expLoopN] at h
+  unfold Dec.expStopIndex
+  simp only
+  have hapos : 0 < x.abs.int := by simp [Dec.abs]; omega
+  have haval : x.abs.value = -x.value := by
+    unfold Dec.value Dec.abs
+    simp only
+    have : ((x.int.natAbs : Int) : ℚ) = -(x.int : ℚ) := by
+      have : (x.int.natAbs : Int) = -x.int := by omega
+      rw [this]; push_cast; ring
+    rw [this]; ring
+  generalize x.abs = a at h hapos haval ⊢
+  cases hl : expLoopN cfg est a a.digits fuel 2 a 1 (addBigdecimals a Dec.one) (addBigdecimals a Dec.one) with
+  | none => rw [hl] at h; simp at h
+  | some pr =>
+    obtain ⟨N, r⟩ := pr
+    rw [hl] at h
+    simp only [Option.map_some, Option.some.injEq] at h
+    have h1v : Dec.one.value = 1 := by unfold Dec.value Dec.one; norm_num
+    have hav : 0 < a.value := (value_pos_iff a).mpr hapos
+    refine ⟨N, rfl, ?_, ?_⟩
+    · obtain ⟨S, q, hN1, _⟩ := expLoop_exit cfg hest hp a hapos a.digits fuel 2 a 1 _ _ r N (le_refl _) (by simp) (by simp)
+        (by rw [value_addBigdecimals, h1v]; linarith)
+        (by
+          have hE1 : Eq' a.value (2 - 1) = a.value + 1 := by
+            unfold Eq' tq; simp [Finset.sum_range_succ]; ring
+          rw [value_addBigdecimals, h1v, hE1, sub_self, abs_zero]
+          have := (expEta_le cfg a.digits).1
+          positivity)
+        (by
+          rw [sub_self, abs_zero, value_addBigdecimals, h1v]
+          have := expRho_pos cfg
+          positivity) hl
+      exact hN1
+    · intro hprem
+      rw [← haval] at hprem
+      obtain ⟨_, hrpos, hacc⟩ := expSeries_accuracy cfg hest hp a hapos fuel N r hl 100 (by norm_num) (by norm_num)
+        (by linarith)
+      have hx' : (x.value : ℝ) = -(a.value : ℝ) := by
+        have : x.value = -a.value := by rw [haval]; ring
+        rw [this]; push_cast; ring
+      rw [hx', Real.exp_neg, ← one_div, ← h]
+      have hU : (0 : ℝ) < (10 : ℝ) ^ (-((implDivision 1 r.int (-r.scale) cfg.precision).withPrec est cfg.precision).scale) :=
+        zpow_pos (by norm_num) _
+      have := recip_trim_accuracy cfg hest hp r hrpos _ (Real.exp_pos _) 203 (by norm_num) (by norm_num)
+        (by push_cast at hacc ⊢; norm_num at hacc ⊢; exact hacc)
+      refine le_trans this ?_
+      push_cast
+      nlinarith
+
+/-- both signs with the code's own digit estimate -/
+theorem C13_accuracy_code (cfg : Config) (hp : 1 ≤ cfg.precision)
+    (x : Dec) (hx : x.int ≠ 0) (fuel : Nat) (out : Dec) (h : x.exp cfg estGuard fuel = some out) :
+    ∃ N : Nat, x.expStopIndex cfg estGuard fuel = some N ∧ 2 ≤ N ∧
+      (101 * |x.value| ≤ 100 * ((N : ℚ) + 1) →
+        |(out.value : ℝ) - Real.exp (x.value : ℝ)| ≤ 57 / 100 * (10 : ℝ) ^ (-out.scale)) := by
+  rcases lt_or_gt_of_ne hx with hneg | hpos
+  · obtain ⟨N, h1, h2, h3⟩ := C13_accuracy_negative cfg estGuard_ok hp x hneg fuel out h
+    refine ⟨N, h1, h2, fun hprem => h3 ?_⟩
+    have : x.value < 0 := by
+      have := (value_pos_iff ⟨-x.int, x.scale⟩).mpr (by simp; omega)
+      unfold Dec.value at this ⊢
+      simp only [Int.cast_neg] at this
+      linarith
+    rw [abs_of_neg this] at hprem
+    exact hprem
+  · obtain ⟨N, h1, h2, h3⟩ := C13_accuracy_positive cfg estGuard_ok hp x hpos fuel out h
+    refine ⟨N, h1, h2, fun hprem => ?_⟩
+    have hv : 0 < x.value := (value_pos_iff x).mpr hpos
+    rw [abs_of_pos hv] at hprem
+    have hU : (0 : ℝ) < (10 : ℝ) ^ (-out.scale) := zpow_pos (by norm_num) _
+    have := h3 hprem
+    linarith
+
+
+/-! ## No premise for `|x| ≤ 1000` (the range the property quantifies over)
+
+While `N ≤ |x|` the Taylor terms are still growing, the partial sum is at most `N+1` last terms, and the
+stopping rule (last term at most `2ρ'` of the sum, `ρ' ≤ 5·10^-6`) cannot fire for `N + 1 ≤ 90002`
+(`no_stop_before_peak`).  So the loop stops at some `N > |x|`, where the unsummed tail is at most `|x|`
+last terms (`exp_tail_geom`): the premise of the theorems above is itself a theorem, and the `P+5`
+guard digits absorb the factor `2|x| + 3 ≤ 2003`.  `fuel ≤ 90000` bounds the number of loop
+iterations the model may take (the driver uses 20000; the real loop has no bound) - the theorems
+speak about whatever is returned within it. -/
+
+/-- **0 < x ≤ 1000: within 0.61 units of the last digit of the real `e^x`** - every precision, no premise -/
+theorem C13_accuracy_to_1000_positive (cfg : Config) {est : Nat → Nat} (hest : EstOK est) (hp : 1 ≤ cfg.precision)
+    (x : Dec) (hx : 0 < x.int) (hx1000 : x.value ≤ 1000) (fuel : Nat) (hfuel : fuel ≤ 90000)
+    (out : Dec) (h : x.exp cfg est fuel = some out) :
+    |(out.value : ℝ) - Real.exp (x.value : ℝ)| ≤ 61 / 100 * (10 : ℝ) ^ (-out.scale) := by
+  unfold Dec.exp at h
+  have hz : x.isZero = false := by simp [Dec.isZero]; omega
+  rw [hz] at h
+  simp only [Bool.false_eq_true, if_false] at h
+  rw [if_neg (by omega)] at h
+  unfold expUntrimmed at h
+  rw [expLoop_eq_expLoopN] at h
+  cases hl : expLoopN cfg est x x.digits fuel 2 x 1 (addBigdecimals x Dec.one) (addBigdecimals x Dec.one) with
+  | none => rw [hl] at h; simp at h
+  | some pr =>
+    obtain ⟨N, r⟩ := pr
+    rw [hl] at h
+    simp only [Option.map_some, Option.some.injEq] at h
+    obtain ⟨hrpos, hacc⟩ := expSeries_accuracy_bounded cfg hest hp x hx fuel N r hl hfuel hx1000
+    rw [← h]
+    have hU : (0 : ℝ) < (10 : ℝ) ^ (-(r.withPrec est cfg.precision).scale) := zpow_pos (by norm_num) _
+    have := final_trim_accuracy cfg hest hp r hrpos _ 2003 (by norm_num) hacc
+    refine le_trans this ?_
+    push_cast
+    nlinarith
+
+/-- **-1000 ≤ x < 0: within 2/3 of a unit of the last digit of the real `e^x`** - every precision, no premise -/
+theorem C13_accuracy_to_1000_negative (cfg : Config) {est : Nat → Nat} (hest : EstOK est) (hp : 1 ≤ cfg.precision)
+    (x : Dec) (hx : x.int < 0) (hx1000 : -1000 ≤ x.value) (fuel : Nat) (hfuel : fuel ≤ 90000)
+    (out : Dec) (h : x.exp cfg est fuel = some out) :
+    |(out.value : ℝ) - Real.exp (x.value : ℝ)| ≤ 2 / 3 * (10 : ℝ) ^ (-out.scale) := by
+  rw [C13_negative_is_reciprocal cfg est x fuel hx] at h
+  unfold expUntrimmed at h
+  rw [expLoop_eq_expLoopN] at h
+  have hapos : 0 < x.abs.int := by simp [Dec.abs]; omega
+  have haval : x.abs.value = -x.value := by
+    unfold Dec.value Dec.abs
+    simp only
+    have : ((x.int.natAbs : Int) : ℚ) = -(x.int : ℚ) := by
+      have : (x.int.natAbs : Int) = -x.int := by omega
+      rw [this]; push_cast; ring
+    rw [this]; ring
+  generalize x.abs = a at h hapos haval
+  cases hl : expLoopN cfg est a a.digits fuel 2 a 1 (addBigdecimals a Dec.one) (addBigdecimals a Dec.one) with
+  | none => rw [hl] at h; simp at h
+  | some pr =>
+    obtain ⟨N, r⟩ := pr
+    rw [hl] at h
+    simp only [Option.map_some, Option.some.injEq] at h
+    obtain ⟨hrpos, hacc⟩ := expSeries_accuracy_bounded cfg hest hp a hapos fuel N r hl hfuel (by rw [haval]; linarith)
+    have hx' : (x.value : ℝ) = -(a.value : ℝ) := by
+      have : x.value = -a.value := by rw [haval]; ring
+      rw [this]; push_cast; ring
+    rw [hx', Real.exp_neg, ← one_div, ← h]
+    have hU : (0 : ℝ) < (10 : ℝ) ^ (-((implDivision 1 r.int (-r.scale) cfg.precision).withPrec est cfg.precision).scale) :=
+      zpow_pos (by norm_num) _
+    have := recip_trim_accuracy cfg hest hp r hrpos _ (Real.exp_pos _) 2003 (by norm_num) (by norm_num) hacc
+    refine le_trans this ?_
+    push_cast
+    nlinarith
+
+/-- **the headline clause of C13 for the code's own digit estimate**: for every non-zero decimal with
+    `|x| ≤ 1000`, every precision `≥ 1`, whatever `exp` returns is strictly positive and strictly less
+    than one unit of its last digit away from the real `e^x` -/
+theorem C13_accuracy_to_1000_code (cfg : Config) (hp : 1 ≤ cfg.precision)
+    (x : Dec) (hx : x.int ≠ 0) (hx1000 : |x.value| ≤ 1000) (fuel : Nat) (hfuel : fuel ≤ 90000)
+    (out : Dec) (h : x.exp cfg estGuard fuel = some out) :
+    0 < out.value ∧ |(out.value : ℝ) - Real.exp (x.value : ℝ)| < (10 : ℝ) ^ (-out.scale) := by
+  have hU : (0 : ℝ) < (10 : ℝ) ^ (-out.scale) := zpow_pos (by norm_num) _
+  refine ⟨(C13_positive_code cfg hp x fuel out h).2, ?_⟩
+  have habs := abs_le.mp hx1000
+  rcases lt_or_gt_of_ne hx with hneg | hpos
+  · have := C13_accuracy_to_1000_negative cfg estGuard_ok hp x hneg habs.1 fuel hfuel out h
+    linarith
+  · have := C13_accuracy_to_1000_positive cfg estGuard_ok hp x hpos habs.2 fuel hfuel out h
+    linarith
+
+
+/-- a non-zero argument gives exactly `P` significant digits (or `10^P`, the rounded-up carry) -/
+theorem C13_digit_count (cfg : Config) {est : Nat → Nat} (hest : EstOK est) (hp : 1 ≤ cfg.precision)
+    (x : Dec) (hx : x.int ≠ 0) (fuel : Nat) (out : Dec) (h : x.exp cfg est fuel = some out) :
+    (10 : Int) ^ (cfg.precision - 1) ≤ out.int ∧ out.int ≤ 10 ^ cfg.precision := by
+  unfold Dec.exp at h
+  have hz : x.isZero = false := by simp [Dec.isZero]; omega
+  rw [hz] at h
+  simp only [Bool.false_eq_true, if_false] at h
+  split at h
+  · rename_i hneg
+    cases hu : expUntrimmed cfg est x.abs fuel with
+    | none => rw [hu] at h; simp at h
+    | some pos =>
+      rw [hu] at h
+      simp only [Option.map_some, Option.some.injEq] at h
+      have hpos : 0 < pos.int := expUntrimmed_pos cfg hest hp x.abs (by simp [Dec.abs]; omega) fuel pos hu
+      have hd := implDivision_pos 1 pos.int (by norm_num) hpos (-pos.scale) cfg.precision
+      rw [← h]
+      exact ⟨withPrec_int_lower hest _ _ hp hd, (withPrec_abs_error hest _ _ hp hd).2.1⟩
+  · rename_i hnn
+    cases hu : expUntrimmed cfg est x fuel with
+    | none => rw [hu] at h; simp at h
+    | some rr =>
+      rw [hu] at h
+      simp only [Option.map_some, Option.some.injEq] at h
+      have hpos : 0 < rr.int := expUntrimmed_pos cfg hest hp x (by omega) fuel rr hu
+      rw [← h]
+      exact ⟨withPrec_int_lower hest _ _ hp hpos, (withPrec_abs_error hest _ _ hp hpos).2.1⟩
+
+/-- **order is preserved up to the last digit** (the closing clause of C13): for `x < y`, both within
+    `±1000`, `exp(x)` never exceeds `exp(y)` by more than two units of the last place of `exp(x)` -/
+theorem C13_order_two_ulp (cfg : Config) (hp : 1 ≤ cfg.precision) (x y : Dec)
+    (hx1000 : |x.value| ≤ 1000) (hy1000 : |y.value| ≤ 1000) (hxy : x.value < y.value)
+    (fuel : Nat) (hfuel : fuel ≤ 90000) (ox oy : Dec)
+    (h1 : x.exp cfg estGuard fuel = some ox) (h2 : y.exp cfg estGuard fuel = some oy) :
+    (ox.value : ℝ) - (oy.value : ℝ) ≤ 2 * (10 : ℝ) ^ (-ox.scale) := by
+  have hUx : (0 : ℝ) < (10 : ℝ) ^ (-ox.scale) := zpow_pos (by norm_num) _
+  have hUy : (0 : ℝ) < (10 : ℝ) ^ (-oy.scale) := zpow_pos (by norm_num) _
+  have hmono : Real.exp (x.value : ℝ) < Real.exp (y.value : ℝ) := Real.exp_lt_exp.mpr (by exact_mod_cast hxy)
+  have hoy0 : (0 : ℝ) < (oy.value : ℝ) := by exact_mod_cast (C13_positive_code cfg hp y fuel oy h2).2
+  have hox0 : (0 : ℝ) < (ox.value : ℝ) := by exact_mod_cast (C13_positive_code cfg hp x fuel ox h1).2
+  have hzero : ∀ z : Dec, z.int = 0 → ∀ o, z.exp cfg estGuard fuel = some o → o = ⟨1, 0⟩ ∧ z.value = 0 := by
+    intro z hz o ho
+    constructor
+    · unfold Dec.exp at ho
+      have : z.isZero = true := by simp [Dec.isZero, hz]
+      rw [this] at ho
+      simp only [if_true, Option.some.injEq] at ho
+      rw [← ho]; rfl
+    · unfold Dec.value; rw [hz]; simp
+  by_cases hx0 : x.int = 0
+  · -- exp(0) = 1, one unit is 1, and exp(y) > 0
+    obtain ⟨e, _⟩ := hzero x hx0 ox h1
+    subst e
+    have : ((Dec.mk 1 0).value : ℝ) = 1 := by unfold Dec.value; norm_num
+    rw [this]
+    norm_num
+    linarith
+  · by_cases hy0 : y.int = 0
+    · -- y = 0: exp(x) ≤ e^x + ⅔U < 1 + ⅔U
+      obtain ⟨e, hyv⟩ := hzero y hy0 oy h2
+      subst e
+      have hacc := (C13_accuracy_to_1000_code cfg hp x hx0 hx1000 fuel hfuel ox h1).2
+      have : ((Dec.mk 1 0).value : ℝ) = 1 := by unfold Dec.value; norm_num
+      rw [this]
+      have hex : Real.exp (x.value : ℝ) < 1 := by
+        rw [hyv] at hmono
+        simpa using hmono
+      have := (abs_lt.mp hacc).2
+      linarith
+    · have hax := (abs_lt.mp (C13_accuracy_to_1000_code cfg hp x hx0 hx1000 fuel hfuel ox h1).2).2
+      have hay := (abs_lt.mp (C13_accuracy_to_1000_code cfg hp y hy0 hy1000 fuel hfuel oy h2).2).1
+      rcases le_or_gt ox.scale oy.scale with hs | hs
+      · -- the unit of exp(y) is no larger
+        have : (10 : ℝ) ^ (-oy.scale) ≤ (10 : ℝ) ^ (-ox.scale) := zpow_le_zpow_right₀ (by norm_num) (by omega)
+        linarith
+      · -- exp(y) lies in a higher decade: exp(x) ≤ 10^P U_x ≤ 10^(P-1) U_y ≤ exp(y)
+        obtain ⟨_, hxhi⟩ := C13_digit_count cfg estGuard_ok hp x hx0 fuel ox h1
+        obtain ⟨hylo, _⟩ := C13_digit_count cfg estGuard_ok hp y hy0 fuel oy h2
+        have h10 : (10 : ℝ) * (10 : ℝ) ^ (-ox.scale) ≤ (10 : ℝ) ^ (-oy.scale) := by
+          have : (10 : ℝ) ^ (-ox.scale + 1) ≤ (10 : ℝ) ^ (-oy.scale) := zpow_le_zpow_right₀ (by norm_num) (by omega)
+          rw [zpow_add₀ (by norm_num), zpow_one] at this
+          linarith
+        have hxv : (ox.value : ℝ) ≤ (10 : ℝ) ^ cfg.precision * (10 : ℝ) ^ (-ox.scale) := by
+          have : ox.value ≤ (10 : ℚ) ^ cfg.precision * (10 : ℚ) ^ (-ox.scale) := by
+            unfold Dec.value
+            exact mul_le_mul_of_nonneg_right (by exact_mod_cast hxhi) (zpow_pos (by norm_num) _).le
+          have := (Rat.cast_le (K := ℝ)).mpr this
+          push_cast at this
+          exact this
+        have hyv : (10 : ℝ) ^ (cfg.precision - 1) * (10 : ℝ) ^ (-oy.scale) ≤ (oy.value : ℝ) := by
+          have : (10 : ℚ) ^ (cfg.precision - 1) * (10 : ℚ) ^ (-oy.scale) ≤ oy.value := by
+            unfold Dec.value
+            exact mul_le_mul_of_nonneg_right (by exact_mod_cast hylo) (zpow_pos (by norm_num) _).le
+          have := (Rat.cast_le (K := ℝ)).mpr this
+          push_cast at this
+          exact this
+        have hP : (10 : ℝ) ^ cfg.precision = 10 * (10 : ℝ) ^ (cfg.precision - 1) := by
+          rw [← pow_succ']; congr 1; omega
+        have hPpos : (0 : ℝ) < (10 : ℝ) ^ (cfg.precision - 1) := by positivity
+        have : (ox.value : ℝ) ≤ (oy.value : ℝ) := by
+          calc (ox.value : ℝ) ≤ (10 : ℝ) ^ cfg.precision * (10 : ℝ) ^ (-ox.scale) := hxv
+            _ = (10 : ℝ) ^ (cfg.precision - 1) * (10 * (10 : ℝ) ^ (-ox.scale)) := by rw [hP]; ring
+            _ ≤ (10 : ℝ) ^ (cfg.precision - 1) * (10 : ℝ) ^ (-oy.scale) := mul_le_mul_of_nonneg_left h10 hPpos.le
+            _ ≤ (oy.value : ℝ) := hyv
+        linarith
+
+
+/-- the driver runs the series once (`Dec.expN`): its second component is `exp` (`Dec.exp_eq_expN`)
+    and its first component is the stop index the theorems above speak about -/
+theorem C13_stop_index_expN (cfg : Config) (est : Nat → Nat) (x : Dec) (hx : x.int ≠ 0) (fuel : Nat) :
+    x.expStopIndex cfg est fuel = (x.expN cfg est fuel).map Prod.fst := by
+  unfold Dec.expStopIndex Dec.expN
+  have hz : x.isZero = false := by simp [Dec.isZero]; omega
+  rw [hz]
+  simp only [Bool.false_eq_true, if_false]
+  by_cases hneg : x.int < 0
+  · simp only [hneg, if_true]
+    cases expLoopN cfg est x.abs x.abs.digits fuel 2 x.abs 1 (addBigdecimals x.abs Dec.one) (addBigdecimals x.abs Dec.one) <;> rfl
+  · simp only [hneg, if_false]
+    rw [abs_of_pos_int x (by omega)]
+    cases expLoopN cfg est x x.digits fuel 2 x 1 (addBigdecimals x Dec.one) (addBigdecimals x Dec.one) <;> rfl
 
 end BigDec
